@@ -130,6 +130,21 @@ def make_params(cfg, idnt):
     return params
 
 
+def nudged(params, cfg):
+    """the parameters of the preceding fit: a fixed parameter differs from
+    the requested one by an amount that is tiny in SI units (0.2 nN, 3 nm,
+    1e-6 relative) -- still another request"""
+    if not cfg.get("prefit_p"):
+        return params
+    for name, d in (("baseline", 2e-10), ("contact_point", 3e-9)):
+        if name in params and not params[name].vary and not params[name].expr:
+            params[name].set(value=params[name].value + d)
+    for name in ("E", "E_S", "R"):
+        if name in params and not params[name].vary:
+            params[name].set(value=params[name].value * (1 + 1e-6))
+    return params
+
+
 def few_points_interval(idnt, segment, npts, axis="tip position"):
     """an absolute interval that contains exactly `npts` samples of the
     segment, deepest first"""
@@ -214,6 +229,9 @@ def run_config(cfg):
             # recorded fit must not inherit anything from it
             near = [kw["range_x"][0] - cfg["prefit"],
                     kw["range_x"][1] + cfg["prefit"]]
+            if cfg.get("prefit_p"):
+                # (only the fixed parameter differs, by a tiny amount)
+                near = list(kw["range_x"])
             try:
                 with warnings.catch_warnings():
                     warnings.simplefilter("ignore")
@@ -224,8 +242,8 @@ def run_config(cfg):
                                                       else 5e-7)
                                                      if cfg.get("prefit_w")
                                                      else cfg["weight_cp"]),
-                                          params_initial=make_params(cfg,
-                                                                     idnt)))
+                                          params_initial=nudged(
+                                              make_params(cfg, idnt), cfg)))
             except BaseException as exc:
                 if isinstance(exc, (KeyboardInterrupt, SystemExit)):
                     raise
@@ -335,7 +353,7 @@ def fit_lattice(tier, rng, focus):
         if mode != "edelta" and rng.random() < (.3 if focus == "C04" else .1):
             # something else happens between the fit and the inspection
             cfg["post"] = rng.choice(["scan", "estimate", "rate", "refit",
-                                      "initparams"])
+                                      "initparams", "ancillaries"])
         if rng.random() < .1:
             cfg["method"] = "nelder"
         if mode == "abs" and rng.random() < .3:
@@ -343,6 +361,8 @@ def fit_lattice(tier, rng, focus):
             # (the first fit differs in the interval only, or also in the
             # weighting distance)
             cfg["prefit_w"] = rng.random() < .5
+            cfg["prefit_p"] = cfg["vary"] in ("fixE", "fixcp", "fixbl") \
+                and not cfg["prefit_w"]
             if rng.random() < .5:
                 cfg["fault"] = True
         elif rng.random() < .08:
@@ -527,7 +547,7 @@ def fingerprint(c):
                              ("curve", "model", "segment", "mode", "interval",
                               "k", "weight_cp", "vary", "cp_init", "noise",
                               "pipe", "post", "fault", "x_axis", "prefit",
-                              "prefit_w")
+                              "prefit_w", "prefit_p")
                              if k in c)
 
 
